@@ -7,7 +7,7 @@ import (
 )
 
 // Feed is the io.Reader a cache writer ingests from (it stands for the replication connection).
-// It hands out the source bytes of (epoch, stream) starting at Start, in the chunks the harness
+// It hands out the source bytes of (source id, stream) starting at Start, in the chunks the harness
 // pushes.  Two monotone counters bound what the writer can have stored at any instant:
 //
 //	Confirmed: bytes returned by Read calls that were followed by another Read call — the writer
@@ -16,7 +16,7 @@ import (
 //	           this can be stored.
 type Feed struct {
 	prf    PRF
-	Epoch  int
+	ID     uint64 // source id of the stream (history id, or snapshot id)
 	Stream Stream
 	Start  int64
 
@@ -33,8 +33,8 @@ type Feed struct {
 	endSeen   atomic.Bool // the writer has been given endErr
 }
 
-func NewFeed(p PRF, epoch int, s Stream, start int64) *Feed {
-	return &Feed{prf: p, Epoch: epoch, Stream: s, Start: start, changed: make(chan struct{})}
+func NewFeed(p PRF, id uint64, s Stream, start int64) *Feed {
+	return &Feed{prf: p, ID: id, Stream: s, Start: start, changed: make(chan struct{})}
 }
 
 func (f *Feed) notifyLocked() {
@@ -100,7 +100,7 @@ func (f *Feed) Read(p []byte) (int, error) {
 		f.queue = f.queue[1:]
 	}
 	off := f.Start + f.handed.Load()
-	f.prf.Fill(p[:n], f.Epoch, f.Stream, off)
+	f.prf.Fill(p[:n], f.ID, f.Stream, off)
 	f.handed.Add(int64(n))
 	f.inRead = false
 	f.notifyLocked()
